@@ -121,15 +121,22 @@ class FuncInfo:
         g.lambdas = self.lambdas
         return g
 
+    @staticmethod
+    def _trivial(s: ast.stmt) -> bool:
+        """Statement without any effect outside the frame: docstring / `...`, pass, constant bound to a local."""
+        if isinstance(s, ast.Expr) and isinstance(s.value, ast.Constant):
+            return True
+        if isinstance(s, ast.Pass):
+            return True
+        if isinstance(s, ast.Assign) and isinstance(s.value, ast.Constant) and all(isinstance(t, ast.Name) for t in s.targets):
+            return True
+        return False
+
     def is_abstract_stub(self) -> bool:
-        """Body is only (docstring +) ``raise NotImplementedError``."""
+        """Body is only (docstring / trivial statements +) ``raise NotImplementedError``."""
         if isinstance(self.node, ast.Lambda):
             return False
-        body = [
-            s
-            for s in self.node.body
-            if not (isinstance(s, ast.Expr) and isinstance(s.value, ast.Constant))
-        ]
+        body = [s for s in self.node.body if not self._trivial(s)]
         if len(body) != 1 or not isinstance(body[0], ast.Raise):
             return False
         exc = body[0].exc
@@ -138,14 +145,10 @@ class FuncInfo:
         return isinstance(exc, ast.Name) and exc.id == "NotImplementedError"
 
     def only_raises(self) -> bool:
-        """Body is only (docstring +) a ``raise`` (disabled method stub)."""
+        """Body is only (docstring / trivial statements +) a ``raise`` (disabled method stub)."""
         if isinstance(self.node, ast.Lambda):
             return False
-        body = [
-            s
-            for s in self.node.body
-            if not (isinstance(s, ast.Expr) and isinstance(s.value, ast.Constant))
-        ]
+        body = [s for s in self.node.body if not self._trivial(s)]
         return len(body) == 1 and isinstance(body[0], ast.Raise)
 
     def __repr__(self) -> str:
